@@ -18,7 +18,7 @@ func init() {
 		ID: "C08", Fn: c08,
 		Rule:        "one evaluation = one complete phased iteration (GetNextMove until MoveNone) compared as a multiset with the batch generator for the same mode, under a generated generator state (PV move drawn from every stage of the position's pseudo-legal set, killers members/non-members, random history and counter-move tables, generator reused across positions with/without ResetOnDemand, interleaved and abandoned iterations); plus partition NonQuiet+Quiet=All for both values of UsePromNonQuiet, evasion-mode sets (batch, phased, and phased on a generator that last worked - partially or to the end - on another in-check position without reset) against refchess pseudo-legality/legality, HasLegalMove against refchess; distinct = distinct (position, mode, generator state) triples",
 		Assumptions: []string{"PV moves are drawn from the position's pseudo-legal set (SetPvMove with an unplayable move is outside the property)", "refchess pseudo-legal definition of Appendix A"},
-		Required:    []string{"phased_iterations", "pv_from_capture", "pv_from_quiet", "pv_from_promotion", "pv_from_castling", "pv_from_king", "pv_last_of_stage", "killers_nonmember", "history_tables", "reused_without_reset", "interleaved", "abandoned", "evasion_positions", "evasion_double_check", "evasion_reused_without_reset", "partition_checks", "haslegal_checks", "haslegal_false", "only_promotions_legal"},
+		Required:    []string{"phased_iterations", "pv_from_capture", "pv_from_quiet", "pv_from_promotion", "pv_from_castling", "pv_from_king", "pv_last_of_stage", "killers_nonmember", "history_tables", "reused_without_reset", "interleaved", "abandoned", "evasion_positions", "evasion_double_check", "evasion_reused_without_reset", "partition_checks", "haslegal_checks", "haslegal_false", "only_promotions_legal", "hemmed_in_terminal_positions"},
 		MinEvals:    20000,
 	})
 }
@@ -68,6 +68,14 @@ func phased(mg *movegen.Movegen, p *position.Position, mode movegen.GenMode, eva
 		r = append(r, m)
 	}
 	return r
+}
+
+// stalemates (and one mate) whose side to move owns officers that can go nowhere
+var c08Hemmed = []string{
+	"k7/8/8/8/8/1p4q1/1P6/B6K w - - 0 1",
+	"k7/8/8/8/8/p1p3q1/P1P5/RB5K w - - 0 1",
+	"k7/8/8/8/1p6/1Pp3q1/2P5/N6K w - - 0 1",
+	"k7/8/8/8/8/1p6/1P4r1/B5rK w - - 0 1",
 }
 
 func c08(c *Ctx) {
@@ -358,6 +366,17 @@ func c08(c *Ctx) {
 		prev = p
 	}
 
+	// positions without a legal move in which officers of the side to move "attack" only their
+	// own neighbours (hemmed-in pieces in stalemates): the quick test must not count those
+	for i, f := range c08Hemmed {
+		if !c.Mine(i) {
+			continue
+		}
+		for _, b := range []*rc.Board{rc.MustFEN(f), rc.MustFEN(f).Mirror()} {
+			rep.Inc("hemmed_in_terminal_positions")
+			probe(engPos(b.FEN()), b, SubRng(c.Seed, "c08/hemmed", i), map[string]interface{}{"kind": "hemmed-in officers, no legal move"})
+		}
+	}
 	nPlay := c.Size(150, 40000)
 	nSynth := c.Size(1500, 400000)
 	gi := 0
